@@ -168,7 +168,7 @@ pub fn coldstart(threads: usize, seed: u64) -> i32 {
         let b = barrier.clone();
         hs.push(std::thread::spawn(move || {
             let mut r = Rng::new(seed, 777, t as u64);
-            let la = r.range(60.0, 70.0) * r.sign();
+            let la = if t % 2 == 0 { r.range(60.0, 70.0) * r.sign() } else { r.range(-50.0, 50.0) };
             let lon = r.range(-180.0, 180.0);
             let l = loc(la, lon, 0.0, (lon / 15.0).round().clamp(-12.0, 12.0));
             let y = r.int(1600, 2399) as i32;
@@ -176,6 +176,7 @@ pub fn coldstart(threads: usize, seed: u64) -> i32 {
             let p = Params::new(METHODS[r.int(1, 8) as usize]);
             b.wait();
             let mut out = vec![];
+            let mut first: Vec<(chrono::NaiveDate, Option<Res>)> = vec![];
             for k in 0..3 {
                 let dd = from_ce(ce(d) + k);
                 match super::guarded(|| prayer_times_dt(&p, l, dd, None)) {
@@ -183,18 +184,38 @@ pub fn coldstart(threads: usize, seed: u64) -> i32 {
                         if m.len() != 7 {
                             out.push(format!("{} entries", m.len()));
                         }
+                        first.push((dd, Some(m)));
                     }
-                    Err(pm) => out.push(format!("lat {la:.3} lon {lon:.3} date {dd}: {pm}")),
+                    Err(pm) => {
+                        out.push(format!("lat {la:.3} lon {lon:.3} date {dd}: {pm}"));
+                        first.push((dd, None));
+                    }
                 }
             }
-            out
+            (out, first, p, l)
         }));
     }
     let mut bad = vec![];
+    let mut firsts = vec![];
     for h in hs {
         match h.join() {
-            Ok(v) => bad.extend(v),
+            Ok((v, f, p, l)) => {
+                bad.extend(v);
+                firsts.push((f, p, l));
+            }
             Err(_) => bad.push("thread died".into()),
+        }
+    }
+    // the very first (cold, concurrent) results must equal what the now warm process computes for the same inputs
+    for (f, p, l) in firsts {
+        for (dd, r) in f {
+            if let Some(cold) = r {
+                if let Ok(warm) = super::guarded(|| prayer_times_dt(&p, l, dd, None)) {
+                    if warm != cold {
+                        bad.push(format!("cold-start result differs from the warm one: {l:?} {dd}: cold {} warm {}", res_json(&cold), res_json(&warm)));
+                    }
+                }
+            }
         }
     }
     if bad.is_empty() {
